@@ -43,24 +43,47 @@ def run(ctx):
     if not ok:
         broken.append(("proof", info))
     rng = np.random.default_rng(ctx.seed + 4)
-    target = ctx.n(14, 400)
+    target = ctx.n(44, 800)
     done = k = 0
     bad = []
     monos = F.monolayers()
+    # the listed known findings are re-examined first, on their recorded inputs (a finding that still fails prints its
+    # KNOWN-FINDING line on every run; one that no longer fails is only noted)
+    extra_inputs = []
+    for e in common.known_findings().get("known", []):
+        if e.get("property") == "C04" and "repro" in e:
+            r = e["repro"]
+            from ase.build import mx2
+            src = mx2(r["formula"], kind=r["kind"], a=r["a"], thickness=r["thickness"], vacuum=r["vacuum"])
+            src.set_pbc([True, True, False])
+            extra_inputs.append((src.repeat((r["repeat"][0], r["repeat"][1], 1)), {"crystal": r["crystal"], "kind": "monolayer", "repeat": r["repeat"], "known_finding_input": True}, src, r["seed"]))
+    # systematic part: every monolayer material as 3x3 and 3x4 supercell, started from seeds 0..5 (small and cheap)
+    for name, make, _ in monos:
+        src = make()
+        src.set_pbc([True, True, False])
+        for rep in ((3, 3), (3, 4)):
+            for sd in range(ctx.n(6, 16)):
+                extra_inputs.append((src.repeat((rep[0], rep[1], 1)), {"crystal": name, "kind": "monolayer", "repeat": list(rep), "systematic": True, "reseeded": True}, src, sd))
+    target += len(extra_inputs)
     while done < target and k < target * 8:
         k += 1
-        if k % 4 == 0:
-            name, make, _ = monos[int(rng.integers(0, len(monos)))]
+        forced_seed = None
+        if extra_inputs:
+            s, desc, conv, forced_seed = extra_inputs.pop(0)
+            exp_pbc, why = 2, None
+            k -= 1
+        elif k % 2 == 0:
+            # monolayer supercells n x m, 3 <= n, m <= 7 (the property names no lateral size for monolayers; C18 uses 3x3-6x6),
+            # cycling through the materials so that every run sees each of them
+            name, make, _ = monos[(k // 2) % len(monos)]
             src = make()
             src.set_pbc([True, True, False])
-            rep = int(rng.integers(5, 8))
-            s = src.repeat((rep, rep, 1))
-            desc, exp_pbc, why = {"crystal": name, "kind": "monolayer", "repeat": rep}, 2, None
-            if F.heights(s.get_cell())[:2].min() < 2 * F.MAX_CELL + 0.5:
-                why = "lateral height below 2*max_cell_size"
+            rep = tuple(int(rng.integers(3, 5)) if rng.random() < 0.5 else int(rng.integers(3, 8)) for _ in range(2))
+            s = src.repeat((rep[0], rep[1], 1))
+            desc, exp_pbc, why = {"crystal": name, "kind": "monolayer", "repeat": list(rep)}, 2, None
             conv = src
         else:
-            s, desc, _, why = c02.gen(rng, k)
+            s, desc, _, why = c02.gen(rng, k // 2)
             exp_pbc = 3
             conv = None
             if why is None:
@@ -78,9 +101,15 @@ def run(ctx):
         tol = 0.1 if noise == 0 else 0.5
         a = F.present(s, rng, noise=noise)
         seed = int(rng.integers(0, 1000))
+        if forced_seed is not None:
+            a, seed, noise, tol = s.copy(), forced_seed, 0.0, 0.1
         desc.update({"noise": noise, "seed": seed, "natoms": len(a), "symmetry_tol": tol})
         done += 1
         ctx.count("kind_" + desc["kind"])
+        if desc["kind"] == "monolayer" and forced_seed is None and len(a) <= 80 and not desc.get("reseeded"):
+            # small monolayer supercells are cheap: the same structure is also started from three more seeds
+            for extra_seed in (int(rng.integers(0, 12)), int(rng.integers(0, 12)), int(rng.integers(12, 1000))):
+                extra_inputs.append((a.copy(), dict({k_: v_ for k_, v_ in desc.items() if k_ not in ("seed",)}, reseeded=True), conv, extra_seed))
         try:
             clusters = SBC().get_clusters(a, seed=seed)
             big = max(clusters, key=lambda c: len(c.indices))
@@ -107,9 +136,17 @@ def run(ctx):
         if set(comp_c) != set(unit) or len({comp_c[z] / unit[z] for z in unit}) != 1 or (comp_c[next(iter(unit))] % unit[next(iter(unit))]):
             complaints.append("prototype cell does not hold a whole number of formula units: %s" % dict(comp_c))
         if complaints:
-            bad.append({"desc": desc, "complaint": complaints[0], "all": complaints, "atoms": crystals.atoms_to_json(a)})
-    for b in bad[:5]:
-        ctx.finding("proto:%s:%s" % (b["desc"]["crystal"], b["desc"]["kind"]), "%s %s: %s" % (b["desc"]["crystal"], b["desc"]["kind"], b["complaint"]),
+            # failure signature (part of the finding key, so that a known finding covers one failure mode of one material only)
+            form = "".join("%d:%d," % (z, c_) for z, c_ in sorted(comp_c.items()))
+            sig = "sg%s-vs-%s;cell=%s;pbc=%d;clusters=%d" % (got[1], want[1], form, int(np.sum(cell.get_pbc())), len(clusters))
+            bad.append({"desc": desc, "complaint": complaints[0], "all": complaints, "signature": sig, "atoms": crystals.atoms_to_json(a)})
+    seen_keys = set()
+    for b in bad:
+        key = "proto:%s:%s:%s" % (b["desc"]["crystal"], b["desc"]["kind"], b.get("signature", b["complaint"][:40]))
+        if key in seen_keys or len(seen_keys) >= 8:
+            continue
+        seen_keys.add(key)
+        ctx.finding(key, "%s %s: %s" % (b["desc"]["crystal"], b["desc"]["kind"], b["complaint"]),
                     {"kind": "failing-input", "case": b, "how": "SBC().get_clusters(atoms, seed=seed)[largest].get_cell() -> SymmetryAnalyzer(cell, symmetry_tol)"})
     if broken and not ctx.findings:
         ctx.finding("unproved", "theorem no longer checks, no failing crystal found", {"kind": "broken-obligation", "broken": broken}, found_input=False)
